@@ -22,12 +22,17 @@ static char arr[FILTERED_STR_LEN];
 void harness(void) {
   unsigned long off = IN(0), len = IN(1), pos = IN(2);
   ASSUME(len <= LEAFLEN && off >= 1 && off < FILTERED_STR_LEN && off + len < FILTERED_STR_LEN && pos < NUM_OF_OPD);
-#ifndef LEAF_ANY_OFFSET
-  /* two placements decide memory safety for every placement: directly after
-   * the first byte of the buffer (a read of s[-k], k >= 2, leaves the array)
-   * and flush against its end (a read beyond the terminator leaves the array);
-   * a placement in between is strictly more permissive than both.  The
-   * thorough tier also runs the arbitrary-offset version where it finishes. */
+#if defined(LEN_FIX) && defined(PLACE)
+  /* one query per string length and placement: every offset is then a constant
+   * and only the characters are symbolic (symbolic offsets into the line buffer
+   * made the keyword scanner's formula exceed 14 GB).  Two placements decide
+   * memory safety for every placement: directly after the first byte of the
+   * buffer (a read of s[-k], k >= 2, leaves the array) and flush against its
+   * end (a read beyond the terminator leaves the array); a placement in
+   * between is strictly more permissive than both. */
+  ASSUME(len == LEN_FIX && off == (PLACE ? FILTERED_STR_LEN - 1 - LEN_FIX : 1));
+  len = LEN_FIX; off = PLACE ? FILTERED_STR_LEN - 1 - LEN_FIX : 1;
+#elif !defined(LEAF_ANY_OFFSET)
   ASSUME(off == 1 || off + len == FILTERED_STR_LEN - 1);
 #endif
   for (int i = 0; i < FILTERED_STR_LEN; i++) {
